@@ -93,7 +93,7 @@ def do_run(name, tier):
             msgs.append(lines[i + 1].strip()[:200])
     caught = rc == 1 and bool(viol)
     meta.setdefault("results", {})[tier] = {"caught": caught, "exit": rc, "violations": len(viol), "first": msgs[:2],
-                                             "wall_s": round(time.time() - t0), "cmd": "./check %s --tier %s" % (pid, tier)}
+                                             "wall_s": round(time.time() - t0), "at": round(time.time()), "repo_head": sh("git rev-parse --short HEAD", cwd="/repo")[1].strip(), "cmd": "./check %s --tier %s" % (pid, tier)}
     json.dump(meta, open(os.path.join(d, "meta.json"), "w"), indent=1)
     print("%s %s: %s (%d violations, %ds) %s" % (name, tier, "CAUGHT" if caught else "missed", len(viol), time.time() - t0, msgs[:1]))
     return 0
@@ -151,6 +151,16 @@ def main():
         for name in sorted(os.listdir(SEEDED)):
             mp = os.path.join(SEEDED, name, "meta.json")
             if os.path.exists(mp) and tier not in json.load(open(mp)).get("results", {}):
+                do_run(name, tier)
+        return 0
+    if cmd == "rerun":
+        # run again every change whose recorded result is older than `stamp` (seconds since the epoch)
+        import re as _re
+        tier, stamp = sys.argv[2], float(sys.argv[3])
+        rx = _re.compile(sys.argv[4] if len(sys.argv) > 4 else ".")
+        for name in sorted(os.listdir(SEEDED)):
+            mp = os.path.join(SEEDED, name, "meta.json")
+            if rx.search(name) and os.path.exists(mp) and json.load(open(mp)).get("results", {}).get(tier, {}).get("at", 0) < stamp:
                 do_run(name, tier)
         return 0
     if cmd == "table":
